@@ -189,3 +189,17 @@ mod regex_validation {
         }
     }
 }
+
+/// Verification hooks (inert unless built with `--cfg nutype_verif`, which only /verif's mirror crate sets).
+#[cfg(nutype_verif)]
+pub(crate) fn verif_to_string_derive_trait(tr: DeriveTrait, has_validation: bool, span: Span) -> Result<StringDeriveTrait, syn::Error> {
+    to_string_derive_trait(tr, has_validation, span)
+}
+#[cfg(nutype_verif)]
+pub(crate) fn verif_validate_validators(validators: Vec<SpannedStringValidator>) -> Result<Vec<StringValidator>, syn::Error> {
+    validate_validators(validators)
+}
+#[cfg(nutype_verif)]
+pub(crate) fn verif_validate_sanitizers(sanitizers: Vec<SpannedStringSanitizer>) -> Result<Vec<StringSanitizer>, syn::Error> {
+    validate_sanitizers(sanitizers)
+}
